@@ -22,7 +22,10 @@ import (
 	"strings"
 	"sync"
 
+	"github.com/Oneledger/protocol/action"
+	govact "github.com/Oneledger/protocol/action/governance"
 	"github.com/Oneledger/protocol/consensus"
+	"github.com/Oneledger/protocol/data/balance"
 	"github.com/Oneledger/protocol/data/delegation"
 	"github.com/Oneledger/protocol/data/evidence"
 	"github.com/Oneledger/protocol/data/governance"
@@ -42,6 +45,8 @@ type c11Tx struct {
 	Mal     int
 	Choice  int8
 	NewMat  int64
+	Update  string // propcfg: the configuration update, e.g. "stakingOptions.maturityTime:150000"
+	CheckOnly bool // propcfg: only CheckTx, never delivered
 }
 
 type c11Plan struct {
@@ -80,6 +85,7 @@ type c11CaseRec struct {
 	RestartsMid          int
 	RestartsAfterVerdict int
 	SharedVerdicts       int
+	PropChecked, PropDelivered, PropCreated, PropRefused, OptionChanges int
 }
 
 type c11Addrs struct {
@@ -248,10 +254,23 @@ func c11Run(plan c11Plan) c11CaseRec {
 	gen := w.Genesis()
 	mat := plan.Mat
 	matureGen := plan.Genesis == "mature"
+	prodGov := plan.Genesis == "prodgov"
 	gen.Customize = func(st *consensus.AppState) {
 		st.Governance.StakingOptions.MaturityTime = mat
 		if matureGen {
 			customizeMature(w)(st)
+		}
+		if prodGov {
+			// production-range proposal and staking options, so that a configuration update of the staking
+			// options validates and can be finalised (ValidateProposal / ValidateStaking ranges)
+			d := governance.ProposalFundDistribution{Validators: 18, FeePool: 18, Burn: 18, ExecutionCost: 18, BountyPool: 10, ProposerReward: 18}
+			mk := func(fdl, vdl int64, pass int) governance.ProposalOption {
+				return governance.ProposalOption{InitialFunding: amt("1000000000"), FundingGoal: amt("10000000000"), FundingDeadline: fdl, VotingDeadline: vdl,
+					PassPercentage: pass, PassedFundDistribution: d, FailedFundDistribution: d, ProposalExecutionCost: "executionCost"}
+			}
+			st.Governance.PropOptions = governance.ProposalOptionSet{ConfigUpdate: mk(10000, 10000, 51), CodeChange: mk(10000, 150000, 60), General: mk(75000, 75000, 67), BountyProgramAddr: "oneledgerBountyProgram"}
+			st.Governance.StakingOptions.MinSelfDelegationAmount = *balance.NewAmount(500000)
+			st.Governance.StakingOptions.TopValidatorCount = 8
 		}
 	}
 	rep := NewReplica(gen, ReplicaOpts{NodeVal: w.Vals[0].Val})
@@ -290,6 +309,7 @@ func c11Run(plan c11Plan) c11CaseRec {
 	}
 	nonce := 0
 	memo := func() string { nonce++; return fmt.Sprintf("c11-%d", nonce) }
+	lastMat := int64(-1)
 	for bi := 0; bi < len(plan.Blocks); bi++ {
 		blk := plan.Blocks[bi]
 		lastH := rep.H
@@ -303,6 +323,12 @@ func c11Run(plan c11Plan) c11CaseRec {
 		es.WithState(rep.A.VerifDeliver())
 		gov.WithState(rep.A.VerifDeliver())
 		vs.WithState(rep.A.VerifDeliver())
+		if o0, err := gov.GetStakingOptions(); err == nil {
+			if lastMat >= 0 && o0.MaturityTime != lastMat && attempt == 1 {
+				rec.OptionChanges++
+			}
+			lastMat = o0.MaturityTime
+		}
 		add("begin", fmt.Sprintf("(OBegin [%s], ENone)", strings.Join(blocked, "; ")), fmt.Sprintf("begin block %d", h), true)
 		for _, t := range blk {
 			v := cast[t.V]
@@ -318,6 +344,35 @@ func c11Run(plan c11Plan) c11CaseRec {
 				opt.MaturityTime = t.NewMat
 				must(gov.WithHeight(h).SetStakingOptions(*opt))
 				must(gov.WithHeight(h).SetLUH(governance.LAST_UPDATE_HEIGHT_STAKING))
+				continue
+			case "propcfg":
+				// a configuration-update proposal about the staking options: CheckTx'ed, and delivered unless CheckOnly
+				fdl, vdl := h+3, h+3+12
+				if prodGov {
+					fdl, vdl = 200, 10200
+				}
+				ptx := mkTx(action.PROPOSAL_CREATE, govact.CreateProposal{ProposalID: propID(plan.Name + t.Req), ProposalType: governance.ProposalTypeConfigUpdate, Headline: "h", Description: "d " + t.Req,
+					Proposer: w.Users[0].Addr, InitialFunding: oltAmt("1000000000"), FundingDeadline: fdl, FundingGoal: amt("10000000000"), VotingDeadline: vdl, PassPercentage: 51, ConfigUpdate: t.Update}, GAS, memo(), w.Users[0])
+				cres := rep.CheckTx(ptx)
+				rec.PropChecked++
+				if cres.Code != 0 {
+					rec.PropRefused++
+				}
+				if !t.CheckOnly {
+					dres := rep.DeliverTx(ptx)
+					rec.PropDelivered++
+					if dres.Code == 0 {
+						rec.PropCreated++
+					}
+				}
+				continue
+			case "propfund":
+				rep.DeliverTx(txPropFund(w.Users[1], plan.Name+t.Req, oltAmt("9000000000"), memo()))
+				continue
+			case "propvote":
+				for _, gv := range w.Vals {
+					rep.DeliverTx(txPropVote(gv, plan.Name+t.Req, governance.OPIN_POSITIVE, memo()))
+				}
 				continue
 			case "allege":
 				rep.DeliverTx(txAllegation(v, t.Req, cast[t.Mal].Val.Addr, h, memo()))
@@ -537,7 +592,14 @@ func c11RandomPlan(r *rand.Rand, i int) c11Plan {
 			case k < 9:
 				blk = append(blk, c11Tx{Kind: "withdraw", V: v, D: d, Amount: amount("withdraw")})
 			default:
-				blk = append(blk, c11Tx{Kind: "setmaturity", V: 0, D: -1, NewMat: int64(r.Intn(6))})
+				if r.Intn(2) == 0 {
+					upd := []string{"stakingOptions.maturityTime:0", "stakingOptions.maturityTime:1", "stakingOptions.maturityTime:7", "stakingOptions.maturityTime:150000",
+						"stakingOptions.minSelfDelegationAmount:600000", "stakingOptions.topValidatorCount:9"}[r.Intn(6)]
+					blk = append(blk, c11Tx{Kind: "propcfg", V: 0, D: -1, Req: fmt.Sprintf("q%d_%d", b, j), Update: upd, CheckOnly: r.Intn(3) == 0})
+					blk = append(blk, c11Tx{Kind: "unstake", V: r.Intn(4), D: -1, Amount: []string{"1", "100", "500"}[r.Intn(3)]})
+				} else {
+					blk = append(blk, c11Tx{Kind: "setmaturity", V: 0, D: -1, NewMat: int64(r.Intn(6))})
+				}
 			}
 		}
 		p.Blocks = append(p.Blocks, blk)
@@ -629,6 +691,31 @@ func c11Scripts() []c11Plan {
 	sv.Blocks[6] = []c11Tx{{Kind: "allege", V: 0, Req: "sv2", Mal: 2}}
 	sv.Blocks[7] = []c11Tx{{Kind: "vote", V: 0, Req: "sv2", Choice: 1}, {Kind: "vote", V: 1, Req: "sv2", Choice: 1}, {Kind: "vote", V: 3, Req: "sv2", Choice: 1}}
 	ps = append(ps, sv)
+	// configuration-update proposals about the staking options between stake and unstake; only a
+	// finalised one changes the option in the store, and only that value enters a maturity height.
+	// Default genesis (staking options outside the production range): every such proposal is refused.
+	cp := c11Plan{Name: "cfg_proposals_refused", Genesis: "default", Mat: 2, Blocks: c11Empty(12)}
+	cp.Blocks[1] = []c11Tx{tx("stake", 1, "700"), {Kind: "propcfg", Req: "a", Update: "stakingOptions.maturityTime:3", CheckOnly: true}, tx("unstake", 1, "100")}
+	cp.Blocks[2] = []c11Tx{{Kind: "propcfg", Req: "b", Update: "stakingOptions.maturityTime:5"}, tx("unstake", 1, "200")}
+	cp.Blocks[3] = []c11Tx{{Kind: "propcfg", Req: "c", Update: "stakingOptions.maturityTime:150000"}, tx("unstake", 2, "300"),
+		{Kind: "propcfg", Req: "d", Update: "stakingOptions.minSelfDelegationAmount:600000"}, {Kind: "propcfg", Req: "e", Update: "stakingOptions.topValidatorCount:9"}, tx("unstake", 1, "50")}
+	cp.Blocks[5] = []c11Tx{tx("withdraw", 1, "350"), tx("withdraw", 2, "300")}
+	cp.Blocks[6] = []c11Tx{tx("withdraw", 2, "300")}
+	ps = append(ps, cp)
+	// production-range genesis (maturity 109200): out-of-range refused, in-range created but unfunded,
+	// CheckTx only, funded but unvoted, and one funded + voted + finalised that really changes the option
+	cf := c11Plan{Name: "cfg_proposals_prod", Genesis: "prodgov", Mat: 109200, Blocks: c11Empty(16)}
+	cf.Blocks[1] = []c11Tx{tx("stake", 1, "700"), {Kind: "propcfg", Req: "a", Update: "stakingOptions.maturityTime:3"}, tx("unstake", 1, "100")}
+	cf.Blocks[2] = []c11Tx{{Kind: "propcfg", Req: "b", Update: "stakingOptions.maturityTime:200000"}, tx("unstake", 1, "110"),
+		{Kind: "propcfg", Req: "c", Update: "stakingOptions.maturityTime:300000", CheckOnly: true}, tx("unstake", 2, "120")}
+	cf.Blocks[3] = []c11Tx{{Kind: "propcfg", Req: "d", Update: "stakingOptions.maturityTime:250000"}, {Kind: "propfund", Req: "d"}, tx("unstake", 1, "130"),
+		{Kind: "propcfg", Req: "m", Update: "stakingOptions.minSelfDelegationAmount:600000"}, {Kind: "propcfg", Req: "t", Update: "stakingOptions.topValidatorCount:70"}}
+	cf.Blocks[4] = []c11Tx{{Kind: "propcfg", Req: "f", Update: "stakingOptions.maturityTime:150000"}, tx("unstake", 3, "140")}
+	cf.Blocks[5] = []c11Tx{{Kind: "propfund", Req: "f"}, tx("unstake", 1, "150")}
+	cf.Blocks[6] = []c11Tx{{Kind: "propvote", Req: "f"}, tx("unstake", 1, "160")}
+	cf.Blocks[8] = []c11Tx{tx("unstake", 1, "170")}
+	cf.Blocks[10] = []c11Tx{tx("unstake", 1, "180"), tx("unstake", 2, "190"), tx("withdraw", 1, "1")}
+	ps = append(ps, cf)
 	// maturity option changed between unstake and maturity: the height fixed at unstake time counts
 	mc := c11Plan{Name: "maturity_change", Genesis: "mature", Mat: 4, Blocks: c11Empty(14)}
 	mc.Blocks[1] = []c11Tx{tx("unstake", 1, "1000")}
@@ -656,6 +743,11 @@ type c11Report struct {
 	RestartsMid int          `json:"restarts_between_endblock_and_commit"`
 	RestartsAfterVerdict int `json:"restarts_after_verdict_block"`
 	SharedVerdicts int `json:"verdicts_on_shared_stake_account"`
+	PropChecked int `json:"staking_option_proposals_checktx"`
+	PropDelivered int `json:"staking_option_proposals_delivered"`
+	PropCreated int `json:"staking_option_proposals_created"`
+	PropRefused int `json:"staking_option_proposals_refused_at_checktx"`
+	OptionChanges int `json:"persisted_maturity_option_changes"`
 	Names     []string       `json:"names"`
 }
 
@@ -758,6 +850,11 @@ func c11Main(args []string) int {
 		rep.RestartsMid += c.RestartsMid
 		rep.RestartsAfterVerdict += c.RestartsAfterVerdict
 		rep.SharedVerdicts += c.SharedVerdicts
+		rep.PropChecked += c.PropChecked
+		rep.PropDelivered += c.PropDelivered
+		rep.PropCreated += c.PropCreated
+		rep.PropRefused += c.PropRefused
+		rep.OptionChanges += c.OptionChanges
 		for _, blk := range p.Blocks {
 			for _, t := range blk {
 				if t.Kind == "stake" || t.Kind == "unstake" || t.Kind == "withdraw" {
